@@ -317,13 +317,16 @@ fn format_type_info_internal(
                 || contains_comments(access)
                 || contains_comments(type_info);
 
+            // The access modifier (`read` / `write`) is a separate word: keep a space between it and the element type
             let access = access.as_ref().map(|token_reference| {
-                format_token_reference(ctx, token_reference, shape + BRACKET_LEN)
+                format_token_reference(ctx, token_reference, shape + BRACKET_LEN).update_trailing_trivia(
+                    FormatTriviaType::Append(vec![Token::new(TokenType::spaces(1))]),
+                )
             });
 
             let access_shape_increment = access
                 .as_ref()
-                .map_or(0, |token| token.to_string().len() + 1);
+                .map_or(0, |token| token.to_string().len());
 
             let (table_type, new_type_info) = if contains_comments {
                 (TableType::MultiLine, None)
@@ -351,7 +354,7 @@ fn format_type_info_internal(
                     format_hangable_type_info(
                         ctx,
                         type_info,
-                        shape.increment_additional_indent(),
+                        shape.increment_additional_indent() + access_shape_increment,
                         0,
                     ),
                     FormatTriviaType::Append(vec![create_indent_trivia(
@@ -367,10 +370,22 @@ fn format_type_info_internal(
                 ),
             };
 
+            // On a line of its own, the indentation goes in front of the access modifier when there is one
+            let (access, new_type_info) = match access {
+                Some(access) => (
+                    Some(access.update_leading_trivia(leading_trivia)),
+                    new_type_info.update_trailing_trivia(trailing_trivia),
+                ),
+                None => (
+                    None,
+                    new_type_info.update_trivia(leading_trivia, trailing_trivia),
+                ),
+            };
+
             TypeInfo::Array {
                 braces,
                 access,
-                type_info: Box::new(new_type_info.update_trivia(leading_trivia, trailing_trivia)),
+                type_info: Box::new(new_type_info),
             }
         }
 
